@@ -240,54 +240,71 @@ def check_polars_units(run, F):
 
 
 def check_time_ctors(run, F):
-    from algebra import Poly, Env, norm
-    def S(x):
-        return Poly.atom(('sym', x))
+    from algebra import Poly, parse_poly, defs_of
+
     def one(q):
         return [f for f in F.fns if f.crate == 'tea_time' and f.qpath.endswith(q)][0]
-    H, M, SEC = S('convert::SECS_PER_HOUR'), S('convert::SECS_PER_MINUTE'), S('convert::NANOS_PER_SEC')
-    specs = {
-        'Time::from_hms': (S('hour') * H + S('min') * M + S('sec')) * SEC,
-    }
+
+    def final_nanos(fn):
+        """polynomial of the nanosecond field of the Time a constructor returns"""
+        t = N.tbl(fn)
+        if len(t) != 1:
+            return None, dtree.show(t)
+        cs, leaf, ef = list(t)[0]
+        u = dtree.unprime
+        m_ = re.fullmatch(r'(?:Self|time::Time|Time)\((.*)\)', leaf)
+        if m_:
+            return parse_poly(m_.group(1), defs_of(ef)), leaf
+        # `let mut t = base; t.0 += x; t`
+        base = [re.match(r'(\w+) := (.*)$', e) for e in ef]
+        base = [b for b in base if b and b.group(1) == u(leaf)]
+        adds = [re.match(r"%s\.0 AddAssign (.*)$" % re.escape(u(leaf)), u(e)) for e in ef]
+        adds = [a for a in adds if a]
+        if len(base) == 1 and len(adds) == 1:
+            return parse_poly('(%s.0 + %s)' % (base[0].group(2), adds[0].group(1))), leaf
+        return None, dtree.show(t)
+    S = lambda x: parse_poly(x)
+    NPS = S('convert::NANOS_PER_SEC')
     fn = one('Time::from_hms')
-    from aggrules import _poly_of
-    p = _poly_of(fn, lambda y: y.get('k') == 'Call' and len(y['ch']) == 2 and 'Self' in src(y['ch'][0])
-                 or (y.get('k') == 'Call' and src(y).startswith('Self(')))
-    got = None
-    for x in walk(fn.hir):
-        if x.get('k') == 'Call' and (x.get('callee_res') == 'SelfCtor' or src(x).startswith(('Self(', 'time::Time(', 'Time('))):
-            from algebra import read_block
-            env = Env()
-            read_block(fn.hir, env)
-            got = norm(x['ch'][1], env)
-    run.ob('TBL.time', fn, 'from_hms = (h*3600 + m*60 + s) * 1e9', got == specs['Time::from_hms'],
-           fn.loc(), 'got %s' % (got.show() if got else None))
-    for nm, const in (('from_hms_milli', 'convert::NANOS_PER_MILLI'), ('from_hms_micro', 'convert::NANOS_PER_MICRO'),
-                      ('from_hms_nano', None)):
+    got, shown = final_nanos(fn)
+    want = (S('hour') * S('convert::SECS_PER_HOUR') + S('min') * S('convert::SECS_PER_MINUTE') + S('sec')) * NPS
+    run.ob('TBL.time', fn, 'from_hms = (h*3600 + m*60 + s) * 1e9', got == want, fn.loc(),
+           'got %s' % (got.show() if got else shown))
+    base = S('Time::from_hms(hour, min, sec).0')
+    for nm, const, arg in (('from_hms_milli', 'convert::NANOS_PER_MILLI', 'milli'),
+                           ('from_hms_micro', 'convert::NANOS_PER_MICRO', 'micro'), ('from_hms_nano', None, 'nano')):
         fn = one('Time::' + nm)
-        s = src(fn.hir)
-        arg = {'from_hms_milli': 'milli', 'from_hms_micro': 'micro', 'from_hms_nano': 'nano'}[nm]
-        want = ('(%s * %s)' % (arg, const)) if const else arg
-        ok = 'Self::from_hms(hour, min, sec)' in s.replace('time::Time::from_hms', 'Self::from_hms') or \
-            'from_hms(hour, min, sec)' in s
-        ok = ok and ('time.0 += nanos' in s and 'let nanos = %s' % want in s if const else
-                     'time.0 += nano' in s)
-        run.ob('TBL.time', fn, nm, ok, fn.loc(), s[:120])
+        got, shown = final_nanos(fn)
+        want = base + (S(arg) * S(const) if const else S(arg))
+        run.ob('TBL.time', fn, nm, got == want, fn.loc(), 'got %s' % (got.show() if got else shown))
     fn = one('Time::from_num_seconds_from_midnight')
-    s = src(fn.hir)
-    run.ob('TBL.time', fn, 'from_num_seconds_from_midnight', '((secs * convert::NANOS_PER_SEC) + nano)' in s,
-           fn.loc(), s[:100])
+    got, shown = final_nanos(fn)
+    run.ob('TBL.time', fn, 'from_num_seconds_from_midnight', got == S('secs') * NPS + S('nano'), fn.loc(),
+           'got %s' % (got.show() if got else shown))
     fa, fb = one('Time::from_cr'), one('Time::as_cr')
-    sa, sb = src(fa.hir), src(fb.hir)
-    ok = 'convert::NANOS_PER_SEC' in sa and '(self.0 / convert::NANOS_PER_SEC)' in sb and \
-        '(self.0 % convert::NANOS_PER_SEC)' in sb and 'num_seconds_from_midnight' in sa and \
-        'nanosecond()' in sa
-    run.ob('TBL.time', fa, 'from_cr / as_cr agree on the modulus', ok, fa.loc(), sb[:150])
+    got, shown = final_nanos(fa)
+    la = N.one_leaf(N.tbl(fb)) or ''
+    ok = got == S('cr.num_seconds_from_midnight()') * NPS + S('cr.nanosecond()') and \
+        bool(re.fullmatch(r'NaiveTime::from_num_seconds_from_midnight_opt\(\(self\.0 / convert::NANOS_PER_SEC\), '
+                          r'\(self\.0 % convert::NANOS_PER_SEC\)\)', la))
+    run.ob('TBL.time', fa, 'from_cr / as_cr agree on the modulus', ok, fa.loc(), la[:150])
     fp = one('Time::parse')
-    sp_ = src(fp.hir)
-    run.ob('TBL.time', fp, 'parse builds nanos like from_cr',
-           '(((naive_time.num_seconds_from_midnight() as i64) * convert::NANOS_PER_SEC) + '
-           '(naive_time.nanosecond() as i64))' in sp_, fp.loc(), sp_[-160:])
+    tp = N.tbl(fp)
+    okp = bool(tp)
+    for cs, leaf, ef in tp:
+        m_ = re.fullmatch(r'(?:v1::)?Ok\((?:Self|time::Time|Time)\((.*)\)\)', leaf)
+        if not m_:
+            okp = False
+            continue
+        inner = m_.group(1)
+        dd = defs_of(ef)
+        for _ in range(4):
+            for k_, v_ in dd.items():
+                inner = re.sub(r"\b%s\b(?!')" % re.escape(k_), lambda _m: v_, inner)
+        mm = re.fullmatch(r'\(\(convert::NANOS_PER_SEC \* (.+)\.num_seconds_from_midnight\(\)\) \+ (.+)\.nanosecond\(\)\)', inner)
+        okp = okp and bool(mm) and mm.group(1) == mm.group(2)
+    run.ob('TBL.time', fp, 'parse builds nanos like from_cr', okp, fp.loc(),
+           'leaves %s' % [l[-90:] for cs, l, ef in tp])
 
 
 def check_mirrors(run, F):
